@@ -93,6 +93,13 @@ func runSolver(ctx context.Context, s solverSpec, text string, dir string, id st
 	t0 := time.Now()
 	cmd.Run()
 	ms = time.Since(t0).Milliseconds()
+	// CPU time of the solver process is what the claim threshold and the evidence use: it does not grow
+	// when the machine is loaded (wall-clock time does, and made claimed clauses look slow)
+	if ps := cmd.ProcessState; ps != nil {
+		if cpu := (ps.UserTime() + ps.SystemTime()).Milliseconds(); cpu < ms {
+			ms = cpu
+		}
+	}
 	out = buf.String()
 	first := ""
 	for _, l := range strings.Split(out, "\n") {
